@@ -30,6 +30,14 @@ CLAIMS = {
         text="PARTIAL. Proved for GetExtendedSpatialIdsWithinRadiusOfLine and FitClearanceAroundExtendedSpatialID: nil points, zooms outside 0..35, negative radius / clearance and malformed IDs are errors; no panic in the repository code; reported layer counts are non-negative; the corridor result is duplicate-free; the layer fit uses the start point's own ID (order-determinism obligations of C16, after the repair recorded in known_findings.txt).",
         note=TRUST + "NOT decided: containment of the line's IDs, the radius-0 identity, the distance bound and the subset relation between the two modes (third-party convex-distance and geodesy code, assumed total). Verified for layer counts up to 1024.",
         tech="deductive verification of error and duplicate clauses (WP VCs over go/ssa, SMT) with third-party code abstracted", ref="4 C14"),
+    "C11": dict(
+        text="PARTIAL (kernels and error behaviour). Proved: convertHorizontalIDToQuadkey returns the bit interleave of (x, y) for every zoom 1..31 (closed-form specification, zoom x loop-index case split); convertQuadkeyToHorizontalID de-interleaves every key 0 <= q < 4^zoom for every zoom and every digit count, including keys with leading zero digits (loop invariant over opaque bit symbols, with the digit/bit lemmas proved separately and instantiated); the two are mutually inverse (bijection lemma, thorough tier); the list-level conversions reject zooms outside 1..31 / 0..35, malformed IDs and inverted height ranges, do not panic, and the keys-to-IDs direction returns a duplicate-free list of five-field IDs.",
+        note=TRUST + "NOT decided: the list-level round trip, agreement with the zoom change across different output zooms, and 'no pair reported twice across groups' (the grouping code uses maps of arrays and interface values; only its safety is verified). strconv.FormatInt(q, 4) followed by strings.Split(., \"\") is modelled as the base-4 digit sequence of q (trusted model).",
+        tech="deductive verification: WP VCs over go/ssa, exhaustive zoom / digit-count / loop-index case split, opaque bit symbols with instantiated lemmas, SMT (linear integer arithmetic)", ref="4 C11"),
+    "C02": dict(category="other",
+        text="PARTIAL, over ideal reals. Proved for every horizontal zoom 0..35 (and 36x36 zoom pairs at the top level): the vertex query returns eight points in the documented order NW, NE, SE, SW (bottom) then top, with longitudes 360*x/2^h-180 and 360*(x+1)/2^h-180, latitudes atan(sinh(pi*(1-2y/2^h))) and the same for y+1 (each cut toward zero at 1e-10 degrees by the point constructor), altitudes f*2^(25-v) and (f+1)*2^(25-v); the centre query returns the midpoint on every axis; a valid extended ID is parsed and dispatched to exactly these (option 0 = vertex, 1 = centre); unknown options, malformed IDs and zooms outside 0..35 are errors and nothing panics (C15 part, IEEE semantics).",
+        note=TRUST + "float64 arithmetic is treated as real arithmetic in the functional clauses (a change of a formula, an index, the corner order or the option dispatch is detected; rounding effects are not): NOT decided are the round trip centre -> ID and the bit-exact coincidence of shared faces. atan, sinh are uninterpreted; that the edges of every grid row pass the constructor's latitude limit is a stated (trusted) precondition.",
+        tech="deductive verification: WP VCs over go/ssa with float64 as ideal reals, uninterpreted transcendental functions, zoom case split, SMT", ref="4 C02"),
     "C03": dict(
         text="Contracts on the real per-axis kernels (HorizontalZoomMinMax, HorizontalZoom, VerticalZoom) prove, for every (input zoom, output zoom) pair in 0..35^2 and every index, the exact enumeration: zoom-in yields the 2^d (4^d) descendants in row-major order, zoom-out the floor ancestor (negative vertical indices included). Loop invariants are quantified, so list lengths are unbounded.",
         note=TRUST + "The cross-product/Unique level of ChangeExtendedSpatialIdsZoom is covered by the contracts of Unique and of the kernels; its own set-level postcondition is listed in DESIGN.md as not yet discharged.",
